@@ -118,10 +118,18 @@ def cases(draw):
         data.append({"bytes": draw(st.binary(min_size=1, max_size=64)), "deser": f"deser{i}", "holders": sorted(holders)})
     script = []
     for _ in range(draw(st.integers(1, 8))):
-        k = draw(st.sampled_from(["transmit", "transmit", "transmit", "fetch", "purge_target", "purge_source"]))
-        script.append([k, draw(st.integers(0, nd - 1)), draw(st.integers(0, 11)), draw(st.integers(0, 11))])
+        k = draw(st.sampled_from(["transmit", "transmit", "transmit", "fetch", "purge_target", "purge_source", "twice_then_purge", "twice_then_purge"]))
+        di, a, b = draw(st.integers(0, nd - 1)), draw(st.integers(0, 11)), draw(st.integers(0, 11))
+        if k == "twice_then_purge":
+            # the controller commands the same transfer twice (two consumers assigned in one round), later purges the dataset at the
+            # target: both payloads may still be waiting in the target's pool when the purge arrives
+            script += [["transmit", di, a, b], ["transmit", di, a, b], ["purge_target", di, b, b]]
+        else:
+            script.append([k, di, a, b])
     return {"hosts": nh, "data": data, "script": script, "decisions": draw(st.lists(st.integers(0, 1 << 16), max_size=120)),
-            "tail": draw(st.integers(0, 1 << 30))}
+            "tail": draw(st.integers(0, 1 << 30)),
+            # a slow pool: jobs handed to a data server's thread pool tend to stay pending (every order remains possible)
+            "slow_pool": draw(st.booleans())}
 
 
 class Env:
@@ -354,7 +362,11 @@ def run_case(c, holder) -> tuple[bool, list[str], object]:
                 if not script and not net.inflight and steps > 5 and ch.choose(5) == 0:
                     break
                 forced = [i for i, m in enumerate(net.inflight) if age.get(m["seq"], 0) >= 3]
-                o = ("net-deliver", forced[0]) if forced else opts[ch.choose(len(opts))]
+                if c.get("slow_pool") and not forced:
+                    wopts = [x for x in opts for _ in range(1 if x[0] == "job" else 8)]
+                    o = wopts[ch.choose(len(wopts))]
+                else:
+                    o = ("net-deliver", forced[0]) if forced else opts[ch.choose(len(opts))]
                 if o[0] == "cmd":
                     do_cmd(script.pop(0))
                 elif o[0] in ("net", "net-deliver"):
